@@ -196,3 +196,10 @@ Example C18_checkers_nonvacuous :
   check_x 0x1.d8360270c693ep+23 139 = true /\ check_x 0x1.fc4949270b2dep+21 139 = false /\
   lon_close (-0x1.67ffffffffffep+07) 180 = true /\ lon_close 179 180 = false.
 Proof. exact checkers_nonvacuous. Qed.
+
+(* ---- tie to the source by regeneration (DESIGN.md 4.2): the CRS codes of common/consts read from /repo's current source ---- *)
+From SIDGen Require Generated.
+From SID Require GenEqConst.
+Theorem C18_generated_crs_codes : Generated.GeoCrs = 4326%Z /\ Generated.OrthCrs = 3857%Z.
+Proof. split; [exact GenEqConst.gen_GeoCrs_eq | exact GenEqConst.gen_OrthCrs_eq]. Qed.
+Print Assumptions C18_generated_crs_codes.
